@@ -159,3 +159,40 @@ func VH_C11_joining_node_keeps_running() {
 	vAssert(!r.isClosed(), "J-joining-node-does-not-shut-itself-down")
 	vReach("end")
 }
+
+//verif:check C11,C17 stubs=env,valuefile,abslog reach=caught-up-to-removal,end desc="a node that was a member, was removed (it is not told: the leader drops a removed node's replication when it stores the configuration without it) and is added again: the leader of the re-adding configuration replicates to it from where it stopped, so the first thing it learns is the OLD configuration without it, committed long ago; the entry that adds it again lies further on than one request carries. It does not take that for its removal and keeps running - whoever replicates to a node has it in its latest configuration" bounds="node 4, log of 2 entries (configuration of nodes 1..4, one update); request: configuration without node 4 + one update, any leader commit index; ShutdownOnRemove on"
+func VH_C11_readded_node_keeps_running() {
+	r := vMkRaft(4)
+	r.shutdownOnRemove = true
+	r.term, r.termVal.v1 = 1, 1
+	vDiskInit(".term", 1, 0)
+	l, a := vNewLog(0)
+	r.storage.log = l
+	r.fsm.FSM = &vFSM{}
+	with4 := vClusterConfig()
+	with4.Nodes[4] = Node{ID: 4, Addr: vAddr(4)}
+	with4.Index, with4.Term = 1, 1
+	a.ents = append(a.ents, vEncodeEntry(with4.encode()), vEncodeEntry(&entry{index: 2, term: 1, typ: entryUpdate, data: vBytes("payload2", 1)}))
+	a.flushed = 2
+	r.lastLogIndex, r.lastLogTerm = 2, 1
+	r.configs.Latest, r.configs.Committed = with4, with4
+	r.commitIndex = 2
+	r.fsm.index, r.fsm.term = 2, 1
+	r.state = Follower
+	without4 := vClusterConfig().encode()
+	without4.index, without4.term = 3, 1
+	e4 := &entry{index: 4, term: 1, typ: entryUpdate, data: vBytes("payload4", 1)}
+	var w bytes.Buffer
+	w.Write(vEncodeEntry(without4))
+	w.Write(vEncodeEntry(e4))
+	c, _ := vMkConn(w.Bytes())
+	req := &appendReq{req: req{1, 1}, prevLogIndex: 2, prevLogTerm: 1, ldrCommitIndex: vU64("ldrCommitIndex"), numEntries: 2}
+	vAssume(req.ldrCommitIndex >= 2)
+	res, err := r.onAppendEntriesRequest(req, c)
+	vAssert(res == success && err == nil && a.last() == 4, "RA-entries-stored")
+	_, self := r.configs.Latest.Nodes[4]
+	vAssert(!self && r.configs.Latest.Index == 3, "RA-adopted-the-old-configuration-without-it")
+	vReach("caught-up-to-removal")
+	vAssert(!r.isClosed(), "RA-readded-node-does-not-shut-itself-down")
+	vReach("end")
+}
